@@ -7,6 +7,7 @@ matched text would fire on behaviour-preserving edits.  Every helper either answ
 from __future__ import annotations
 
 import ast
+from fractions import Fraction
 
 from .loops import dotted
 from .nf import NF, Scope, Poly, parse_expr
@@ -428,6 +429,7 @@ class OrderModel:
     def __init__(self):
         self.clusters = []      # [(terms: list[Poly], constraint: callable(ranks) -> bool | None)]
         self.derived = {}       # atom text -> ("min" | "max", cluster index, i, j)
+        self.pos_atoms = set()  # atoms declared strictly positive: a comparison may be multiplied through by them
 
     def cluster(self, terms, constraint=None):
         self.clusters.append((list(terms), constraint))
@@ -486,11 +488,26 @@ class OrderModel:
                         break
         return p.subst(rep) if rep and any(a in rep for a in p.atoms()) else p
 
-    def sign(self, world, d: Poly) -> int:
+    def positive(self, atom: str):
+        self.pos_atoms.add(atom)
+
+    def sign(self, world, d: Poly, _depth: int = 0) -> int:
         d = self.resolve(world, d)
         if d.is_const():
             v = d.const_value()
             return (v > 0) - (v < 0)
+        if _depth < 3:
+            # clear denominators that are declared positive:  sign(e/delta - 1) == sign(e - delta)
+            neg = {}
+            for mono in d.terms:
+                for a, k in mono:
+                    if k < 0 and a in self.pos_atoms:
+                        neg[a] = min(neg.get(a, 0), k)
+            if neg:
+                mult = Poly.const(1)
+                for a, k in neg.items():
+                    mult = mult * Poly({((a, -k),): Fraction(1)})
+                return self.sign(world, d * mult, _depth + 1)
         for ci, (terms, _c) in enumerate(self.clusters):
             for i, x in enumerate(terms):
                 for j, y in enumerate(terms):
@@ -500,6 +517,53 @@ class OrderModel:
                         ri, rj = world[ci][i], world[ci][j]
                         return (ri > rj) - (ri < rj)
         raise Unknown(d.canon(), d)
+
+    def truth(self, world, nf, p: Poly) -> bool:
+        """Truth value of a boolean-valued normal form (comparison atoms, and / or / not over them, constants) in this world."""
+        if p.is_const():
+            return p.const_value() != 0
+        a = p.single_atom()
+        m = nf.meta.get(a or "", None)
+        if m is not None and m.get("fn") in ("Lt", "LtE", "Eq", "NotEq") and len(m.get("args", [])) == 2:
+            x, y = (self.value(world, nf, t) for t in m["args"])
+            sg = self.sign(world, x - y)
+            return {"Lt": sg < 0, "LtE": sg <= 0, "Eq": sg == 0, "NotEq": sg != 0}[m["fn"]]
+        raise Unknown(p.canon(), p)
+
+    def value(self, world, nf, p: Poly, depth: int = 0) -> Poly:
+        """The polynomial a piecewise expression equals in this world: min / max / minimum / maximum of two values, where(c, a, b),
+        abs(x) and relu(x) are replaced by the selected piece (recursively); other atoms stay."""
+        p = self.resolve(world, p)
+        if depth > 8:
+            return p
+        m = {}
+        for a in p.atoms():
+            meta = nf.meta.get(a)
+            if not meta or meta.get("kws"):
+                continue
+            fn = meta.get("fn", "").split(".")[-1]
+            args = meta.get("args", [])
+            try:
+                if fn in ("min", "minimum", "max", "maximum") and len(args) == 2:
+                    x, y = (self.value(world, nf, t, depth + 1) for t in args)
+                    sg = self.sign(world, x - y)
+                    m[a] = x if ((sg <= 0) if fn.startswith("min") else (sg >= 0)) else y
+                elif fn == "clip" and len(args) == 3:
+                    # canonical clip(a, b, hi) == minimum(maximum(a, b), hi)
+                    x, y, h = (self.value(world, nf, t, depth + 1) for t in args)
+                    mx = x if self.sign(world, x - y) >= 0 else y
+                    m[a] = mx if self.sign(world, mx - h) <= 0 else h
+                elif fn in ("where", "select") and len(args) == 3:
+                    m[a] = self.value(world, nf, args[1] if self.truth(world, nf, args[0]) else args[2], depth + 1)
+                elif fn in ("abs", "absolute") and len(args) == 1:
+                    x = self.value(world, nf, args[0], depth + 1)
+                    m[a] = x if self.sign(world, x) >= 0 else -x
+                elif fn == "relu" and len(args) == 1:
+                    x = self.value(world, nf, args[0], depth + 1)
+                    m[a] = x if self.sign(world, x) >= 0 else Poly.const(0)
+            except Unknown:
+                continue
+        return self.resolve(world, p.subst(m)) if m else p
 
     def describe(self, world) -> str:
         out = []
